@@ -62,7 +62,12 @@ let check_fen_line (line:string) : unit =
         (* en-passant field: '-' or the square passed over; present whenever a legal ep capture exists;
            '-' unless the last move was a double push *)
         let epf = field 3 disp in
-        let has_ep_capture = List.exists (fun m -> is_ep p m) (legal_moves p) in
+        (* the position the rules prescribe: after a double push beside an enemy pawn the en-passant
+           state exists even if the library did not record it *)
+        let p_true = (match dp with
+            | Some t when p.ep = None -> let p2 = { p with ep = Some (n_of_int t) } in if pos_valid p2 then p2 else p
+            | _ -> p) in
+        let has_ep_capture = List.exists (fun m -> is_ep p_true m) (legal_moves p_true) in
         (match dp with
          | None -> if epf <> "-" then mismatch "oracle_fen_ep" (Printf.sprintf "%s ep field %s although the last move was not a double push" enc epf)
          | Some t ->
@@ -221,8 +226,14 @@ let san_cases (p:pos) : (string * (int*int*int) option option) list =
   (* (the library does not check that a + / # marker is truthful: DESIGN section 8) *)
   let neg = neg @ List.concat_map (fun (base, variants) -> if List.mem base spelled then [] else List.map (fun s -> (s, Some None)) variants)
       [("O-O", ["O-O"; "O-O+"]); ("O-O-O", ["O-O-O"; "O-O-O#"])] in
+  (* trailing text after a complete move text, in particular after a capture marker on a quiet move
+     (the " e.p." suffix test) and with multi-byte characters at every small byte offset: no
+     expectation of its own (model against implementation, and the parser must not panic) *)
+  let junk = [" e.p."; " e.p\xc3\xa9"; " e.\xe2\x82\xac"; " e\xf0\x9f\x98\x80"; " \xc3\xa9.p."; "\xc3\xa9"; "+ e.p\xc3\xa9"; " e.p.\xc3\xa9"; "\xe2\x82\xac e.p."] in
+  let tail_cases = List.concat (List.mapi (fun i (s, _) ->
+      if i mod 5 <> 0 then [] else List.map (fun j -> (s ^ j, None)) junk) (List.filter (fun (_, e) -> e = Some None) neg @ List.filteri (fun i _ -> i mod 9 = 0) pos_cases)) in
   (* a negative text that is an admissible spelling of some legal move is not a negative *)
-  pos_cases @ List.filter (fun (s, _) -> not (List.mem s spelled)) neg
+  pos_cases @ List.filter (fun (s, _) -> not (List.mem s spelled)) neg @ tail_cases
 
 let sangen (line:string) : unit =
   if String.length line > 2 && String.sub line 0 2 = "P " then begin
